@@ -296,8 +296,9 @@ class Gen:
             q["group"] = grp
             q["proj"] = [{"k": "VAR", "v": g, "as": g} for g in grp]
             kinds = ["SUM", "MIN", "MAX"] if sub else ["SUM", "MIN", "MAX", "AVG"]
-            for i, kd in enumerate(r.sample(kinds, r.choice([1, 1, 2]))):
-                q["proj"].append({"k": kd, "v": v, "as": f"t{i}"})
+            for kd in r.sample(kinds, r.choice([1, 1, 2])):
+                self.fresh += 1
+                q["proj"].append({"k": kd, "v": v, "as": f"t{self.fresh}"})
             if r.random() < 0.4:
                 q["order"] = [{"v": x["as"], "d": r.choice(["asc", "desc"])} for x in r.sample(q["proj"], 1)]
             return q
@@ -329,9 +330,7 @@ def _all_tps(p):
         return [x for e in p["ps"] for x in _all_tps(e)]
     if t == "graph":
         return _all_tps(p["p"])
-    if t == "sub":
-        return _all_tps(p["q"]["p"])
-    return []
+    return []      # a subquery's inner variables are not in scope outside it
 
 
 # ----------------------------------------------------------------------------- printer
